@@ -24,9 +24,14 @@ ap.add_argument('--tier', default='quick')
 ap.add_argument('--keep-as', default='')
 a = ap.parse_args()
 src, k = a.src, a.k
-patch = os.path.join(src, f'patch_{k}.diff')
-demo = os.path.join(src, f'demo_{k}.py')
-meta = json.load(open(os.path.join(src, f'meta_{k}.json')))
+if k == '-':        # re-evaluate a kept change: <src> is /verif/seeded/<name>
+    patch, demo = os.path.join(src, 'patch.diff'), os.path.join(src, 'demo.py')
+    meta = json.load(open(os.path.join(src, 'meta.json')))
+    a.keep_as = a.keep_as or os.path.basename(src.rstrip('/'))
+else:
+    patch = os.path.join(src, f'patch_{k}.diff')
+    demo = os.path.join(src, f'demo_{k}.py')
+    meta = json.load(open(os.path.join(src, f'meta_{k}.json')))
 prop = meta.get('property', '?')
 checks = [c for c in a.checks.split(',') if c] or [prop]
 W = tempfile.mkdtemp(prefix='pvw-')
@@ -62,10 +67,16 @@ finally:
 if a.keep_as:
     dst = os.path.join('/verif/seeded', a.keep_as)
     os.makedirs(dst, exist_ok=True)
-    shutil.copy(patch, os.path.join(dst, 'patch.diff'))
-    shutil.copy(demo, os.path.join(dst, 'demo.py'))
+    if os.path.abspath(patch) != os.path.abspath(os.path.join(dst, 'patch.diff')):
+        shutil.copy(patch, os.path.join(dst, 'patch.diff'))
+        shutil.copy(demo, os.path.join(dst, 'demo.py'))
     m = dict(meta)
+    prev = m.get('evaluated', {}).get('checks', {}) if k == '-' else {}
     m['evaluated'] = {kk: out.get(kk) for kk in ('applies', 'tests_pass', 'demo_fails_with_patch', 'demo_passes_without', 'checks')}
+    if prev and m['evaluated'].get('checks') is not None:
+        merged = dict(prev)
+        merged.update(m['evaluated']['checks'])
+        m['evaluated']['checks'] = merged
     m['what_was_run'] = ('scratch worktree of /repo HEAD + git apply patch.diff; repository test suite on the patched tree; demo.py on the '
                          'patched tree and on /repo; ./vcheck <check> --tier ' + a.tier + ' with PV_REPO=<patched worktree>; worktree removed')
     json.dump(m, open(os.path.join(dst, 'meta.json'), 'w'), indent=1)
